@@ -452,7 +452,7 @@ def r7(ctx, sc):
                 if c in CREATORS: rep.ok('C10.R7', '%s %s:%s status := NEW' % (v.name, c, x.line))
                 else: rep.fail('C10.R7', key + ':new', where(x), '%s marks a buffer as new; only yy_flush_buffer and yy_scan_buffer (re)create buffer contents [variant %s]' % (c, v.name), variant=v.describe())
             elif k == PENDING:
-                if c == 'yy_get_next_buffer' and sc.via_current(res.loc(x.ops[1])): rep.ok('C10.R7', '%s %s:%s status := EOF_PENDING (current buffer)' % (v.name, c, x.line))
+                if c == 'yy_get_next_buffer' and sc.via_current(res.loc(x.ops[1]), f): rep.ok('C10.R7', '%s %s:%s status := EOF_PENDING (current buffer)' % (v.name, c, x.line))
                 else: rep.fail('C10.R7', key + ':pending', where(x), '%s marks a buffer as having seen end of file; only yy_get_next_buffer may, for the current buffer [variant %s]' % (c, v.name), variant=v.describe())
             else:
                 # NORMAL: only yylex, only for the current buffer, only on the edge where the same field was found to be NEW
@@ -461,8 +461,8 @@ def r7(ctx, sc):
                     con = S.edge_constraint(f, br, t.name)
                     if con is None or con[0] != 'eq' or con[2] != ('int', NEW): continue
                     d = f.def_of(S.strip_ext(f, con[1]))
-                    if d is not None and d.op == 'load' and sc.is_buf(res.loc(d.ops[0]), 'yy_buffer_status') and sc.via_current(res.loc(d.ops[0])): guarded = True
-                if c != 'yylex' or not sc.via_current(res.loc(x.ops[1])):
+                    if d is not None and d.op == 'load' and sc.is_buf(res.loc(d.ops[0]), 'yy_buffer_status') and sc.via_current(res.loc(d.ops[0]), f): guarded = True
+                if c != 'yylex' or not sc.via_current(res.loc(x.ops[1]), f):
                     rep.fail('C10.R7', key + ':normal', where(x), '%s sets yy_buffer_status to %d; only yylex moves the current buffer from NEW to NORMAL [variant %s]' % (c, k, v.name), variant=v.describe())
                 elif not guarded:
                     rep.fail('C10.R7', key + ':normal-unguarded', where(x),
@@ -484,7 +484,7 @@ def r7(ctx, sc):
                 con = S.edge_constraint(g, br, t)
                 if con and con[0] == 'eq' and con[2] == ('int', PENDING):
                     d = g.def_of(S.strip_ext(g, con[1]))
-                    if d is not None and d.op == 'load' and sc.is_buf(res.loc(d.ops[0]), 'yy_buffer_status') and sc.via_current(res.loc(d.ops[0])): edges.append((br, t))
+                    if d is not None and d.op == 'load' and sc.is_buf(res.loc(d.ops[0]), 'yy_buffer_status') and sc.via_current(res.loc(d.ops[0]), g): edges.append((br, t))
         reads = [y for y in g.ins if y.op in ('call', 'invoke') and sc.callee(y) in INPUT_CALLS]
         if not edges or not reads:
             rep.broken('C10.R7: yy_get_next_buffer of %s: %d tests of EOF_PENDING, %d input calls' % (v.name, len(edges), len(reads)))
@@ -513,7 +513,7 @@ def r8(ctx, sc):
         l = res.loc(x.ops[1])
         d = f.def_of(S.strip_ext(f, x.ops[0])) if x.ops[0][0] == 'reg' else None
         src = res.loc(d.ops[0]) if d is not None and d.op == 'load' else None
-        if sc.is_buf(l, 'yy_input_file') and sc.via_current(l) and src is not None and sc.is_var(src, 'yyin'): adopt.append(x)
+        if sc.is_buf(l, 'yy_input_file') and sc.via_current(l, f) and src is not None and sc.is_var(src, 'yyin'): adopt.append(x)
         if sc.is_var(l, 'yyin') and src is not None and sc.is_buf(src, 'yy_input_file'): clobber.append(x)
     key = sc.key('C10.R8', 'yylex', 'new-source')
     def under_new(x):
@@ -626,7 +626,7 @@ def r9(ctx, sc):
                 con = S.edge_constraint(g, br, t)
                 if con and con[0] == 'eq' and con[2] == ('int', 0):
                     d = g.def_of(S.strip_ext(g, con[1]))
-                    if d is not None and d.op == 'load' and sc.is_buf(res.loc(d.ops[0]), 'yy_fill_buffer') and sc.via_current(res.loc(d.ops[0])): zero_edges.append((br, t))
+                    if d is not None and d.op == 'load' and sc.is_buf(res.loc(d.ops[0]), 'yy_fill_buffer') and sc.via_current(res.loc(d.ops[0]), g): zero_edges.append((br, t))
         reads = [y for y in g.ins if y.op in ('call', 'invoke') and sc.callee(y) in INPUT_CALLS]
         if not reads: rep.broken('C10.R9: yy_get_next_buffer of %s has no input call' % v.name)
         bad = [y for br, t in zero_edges for y in cfg.reach_from_block(g.bmap[t]) if y in reads]
